@@ -252,6 +252,35 @@ Proof.
   - destruct (net_step s op) as [[o s']|]; [|discriminate]. rewrite (IH s' s1 b H). lia.
 Qed.
 
+(* the same measure in terms of the budget: at most one round per pending range, plus pending bytes / ms, plus the FIN *)
+Lemma ceil_le ms n : 0 < ms -> 0 <= n -> (n + ms - 1) / ms <= 1 + n / ms.
+Proof.
+  intros Hm Hn. replace (1 + n / ms) with ((n + 1 * ms) / ms) by (rewrite Z.div_add by lia; lia).
+  apply Z.div_le_mono; lia.
+Qed.
+
+Lemma div_add_le ms a b : 0 < ms -> 0 <= a -> 0 <= b -> a / ms + b / ms <= (a + b) / ms.
+Proof.
+  intros Hm Ha Hb. apply Z.div_le_lower_bound; [lia|].
+  pose proof (Z.mul_div_le a ms Hm). pose proof (Z.mul_div_le b ms Hm). lia.
+Qed.
+
+Lemma psize_nonneg : forall l lo, wf_from lo l -> 0 <= psize l.
+Proof.
+  induction l as [|[a b] t IH]; intros lo W; cbn [psize]; [lia|]. cbn [wf_from] in W. destruct W as (W1 & W2 & W3).
+  specialize (IH b W3). lia.
+Qed.
+
+Lemma rsum_budget ms : forall l lo, 0 < ms -> wf_from lo l -> rsum ms l <= Zlen l + psize l / ms.
+Proof.
+  induction l as [|[a b] t IH]; intros lo Hm W; cbn [rsum psize].
+  - unfold Zlen. cbn [length]. rewrite Z.div_0_l by lia. lia.
+  - cbn [wf_from] in W. destruct W as (W1 & W2 & W3). specialize (IH b Hm W3).
+    pose proof (ceil_le ms (b - a) Hm ltac:(lia)). pose proof (psize_nonneg t b W3).
+    pose proof (div_add_le ms (b - a) (psize t) Hm ltac:(lia) H0).
+    assert (Zlen ((a, b) :: t) = 1 + Zlen t) by (unfold Zlen; cbn [length]; lia). lia.
+Qed.
+
 (* one round: the three steps and what they do *)
 Definition round_ops (ms : Z) (s : net) : list nop :=
   let k := Zlen (n_emitted s) in [NEmit ms None; NDeliver k; NOutcome k true].
@@ -448,7 +477,9 @@ Lemma fair_schedule_completes s ms : nreach s -> 0 < ms ->
     quiet s' /\
     (* explicit bounds on the length of the continuation *)
     Z.of_nat (length (complete ms s)) <= Zlen (n_emitted s) + 3 * rounds ms (n_send (after_loss s)) /\
-    rounds ms (n_send (after_loss s)) <= Zlen (n_written s) - s_start (n_send s) + 1.
+    rounds ms (n_send (after_loss s)) <= Zlen (n_written s) - s_start (n_send s) + 1 /\
+    rounds ms (n_send (after_loss s)) <=
+      Zlen (s_pending (n_send (after_loss s))) + psize (s_pending (n_send (after_loss s))) / ms + 1.
 Proof.
   intros R Hm. destruct (lose_all_run s R) as (s1 & Hr1 & R1 & Q1 & (_ & W1 & St1 & F1 & _ & _) & L1).
   pose proof (nreach_inv _ R1) as I1. destruct (ni_reach _ I1) as (outs1 & Rs1 & _). pose proof (reach_inv _ _ Rs1) as V1.
@@ -463,13 +494,14 @@ Proof.
   assert (Heof : eof s' <-> eof s) by (unfold eof; rewrite F', F1; tauto).
   split; [congruence|]. split; [congruence|].
   split; [intros H; apply E1, Heof, H|]. split; [intros H; apply E2; intros X; apply H, Heof, X|].
-  split; [exact Q'|]. split.
+  split; [exact Q'|]. split; [|split].
   - rewrite app_length. pose proof (lose_from_length (n_emitted s) 0). unfold lose_all, Zlen in *. lia.
   - unfold rounds. pose proof (rsum_le_psize ms _ _ Hm (v_pwf _ _ V1)) as H1.
     pose proof (v_start _ _ V1) as Hs. pose proof (v_stop _ _ V1) as Hst. cbn [g_written] in Hst. rewrite W1 in Hst.
     destruct (psize_bound _ _ (s_stop (n_send s1)) (v_pwf _ _ V1) (v_pmax _ _ V1) ltac:(lia)) as [H2|H2].
     + destruct (s_pending_eof (n_send s1)); cbn [b2z]; lia.
     + rewrite H2 in *. cbn [rsum psize] in *. destruct (s_pending_eof (n_send s1)); cbn [b2z]; lia.
+  - unfold rounds. pose proof (rsum_budget ms _ _ Hm (v_pwf _ _ V1)). destruct (s_pending_eof (n_send s1)); cbn [b2z]; lia.
 Qed.
 
 (* non-vacuity / executability: [complete] run by vm_compute on a mid-way state (one frame delivered twice and
